@@ -975,7 +975,24 @@ def gen_C18(rng, tier):
         fl = flav(rng, any(has_nan(l) for l in leaves))
         fl["coll"] = rng.choice(COLLS)
         exact = g not in ("mean",) or m in (1, 2, 4)
-        cases.append(mk(f"C18/{g}/{k}", prog, fl, mode="exact" if exact else "tol", tags=[g]))
+        extra_kind = rng.choice(["none", "arrbin_arr", "arrbin_one", "arrbin_const", "table", "cov"])
+        nxt = 3 * m + 5
+        allp = leaf_points((allpts, None))
+        if extra_kind == "arrbin_arr" and m >= 1:
+            perm = list(range(m))
+            rng.shuffle(perm)
+            prog.append(C.arrbin(list(range(nxt, nxt + m)), rng.choice(["add", "sub", "mul", "lt", "ge", "eq", "ne"]), list(range(m)), {"regs": perm}))
+        elif extra_kind == "arrbin_one":
+            prog.append(C.arrbin(list(range(nxt, nxt + m)), rng.choice(["add", "sub", "mul", "gt", "le"]), list(range(m)), {"reg": rng.randrange(m)}))
+        elif extra_kind == "arrbin_const":
+            prog.append(C.arrbin(list(range(nxt, nxt + m)), rng.choice(["add", "sub", "mul", "div", "lt", "ge"]), list(range(m)),
+                                 {"const": rng.choice([F(0), F(1), F(2), F(-1), F(1, 2)])}))
+        elif extra_kind == "table":
+            prog.append(C.arrtable(list(range(m)), rng.choice(["sample", "limit"]), allp, rng.choice(["left", "right"])))
+        elif extra_kind == "cov" and m >= 2:
+            prog.append(C.arrcov(list(range(m)), rng.choice(["cov", "corr"]), allp[0], allp[-1]))
+            exact = False
+        cases.append(mk(f"C18/{g}/{k}", prog, fl, mode="exact" if exact else "tol", tags=[g, extra_kind]))
     return cases
 
 
@@ -1065,6 +1082,13 @@ def gen_C17(rng, tier):
         r = 2
         for op in rng.sample(["add", "sub", "mul", "lt", "ge", "eq", "and", "or"], 3):
             P.append(C.bin_(r, op, C.reg(0), C.reg(1))); r += 1
+        # bounds and query points between the (integer) step points as well
+        hlo = lo + rng.choice([F(0), F(1, 2), F(-1, 2)])
+        hhi = hi + rng.choice([F(0), F(1, 2)])
+        P += [C.clip(r, 0, hlo, hhi), C.maskt(r + 1, 0, hlo, hhi, inverse=rng.random() < 0.5), C.query(0, "agg", name="mean", lo=hlo, hi=hhi),
+              C.query(0, "limit", side=rng.choice(["left", "right"]), xs=[p + F(1, 2) for p in ipts]),
+              C.query(r, "points"), C.query(r, "integral")]
+        r += 2
         P += [C.clip(r, 0, lo, hi), C.maskt(r + 1, 0, lo, hi), C.mask(r + 2, 0, 1), C.fillg(r + 3, 0, 1), C.un(r + 4, "ffill", 0),
               C.shift(r + 5, 0, rng.choice([F(1), F(-2)])), C.diff(r + 6, 0, F(1)), C.agg(r + 7, rng.choice(["sum", "max", "logical_or"]), [0, 1])]
         r += 8
